@@ -415,7 +415,10 @@ def e2e(ctx, tool, nconn, nvar):
 
 
 # ----------------------------------------------------------------------------- driver
-def explore(ctx, scale=1):
+def reasm_corr(ctx, scale=1, frac=1.0):
+    """L2: the real Session (handle_packet + get_tls_records on real Packet objects) against TLX.Reassembly.
+    `frac` < 1 runs a proportionally smaller sample (used by the checks of C07 and C08, whose theorems rest on the
+    same model)."""
     impl = Impl()
     rng = ctx.rng
     batches = []        # (point, case, schedule, impl canonical)
@@ -431,19 +434,21 @@ def explore(ctx, scale=1):
             sched, out = check_case(ctx, impl, case, label, oracle)
         batches.append((point, case, sched, out))
 
-    for case in exhaustive_cases(ctx):
-        add("reasm.exhaustive-cuts", case, "exhaustive")
-    for case in single_displacements(ctx):
-        add("reasm.single-displacements", case, "displace1")
-    for _ in range(ctx.n(2500, 40000) * scale):
+    sz = lambda q, t: max(1, int(ctx.n(q, t) * scale * frac))
+    if frac >= 1.0:
+        for case in exhaustive_cases(ctx):
+            add("reasm.exhaustive-cuts", case, "exhaustive")
+        for case in single_displacements(ctx):
+            add("reasm.single-displacements", case, "displace1")
+    for _ in range(sz(2500, 40000)):
         add("reasm.random", g.rand_case(rng), "random")
-    for _ in range(ctx.n(600, 8000) * scale):       # sequence space wraps inside the stream, both directions
+    for _ in range(sz(600, 8000)):       # sequence space wraps inside the stream, both directions
         add("reasm.wrap", g.rand_case(rng, wrap=True), "wrap")
-    for _ in range(ctx.n(600, 8000) * scale):       # first data segment overtaken
+    for _ in range(sz(600, 8000)):       # first data segment overtaken
         add("reasm.first-segment", g.rand_case(rng, first_move=True, dups=rng.random() < 0.3), "first")
-    for _ in range(ctx.n(60, 800) * scale):         # duplicates captured ≥ 64 segments after the original
+    for _ in range(sz(60, 800)):         # duplicates captured ≥ 64 segments after the original
         add("reasm.late-duplicates", g.late_dup_case(rng), "latedup")
-    for case in malformed_cases(ctx, ctx.n(1500, 20000) * scale):
+    for case in malformed_cases(ctx, sz(1500, 20000)):
         add("reasm.malformed", case, "malformed", malformed=True)
 
     lines, spans = [], []
@@ -462,6 +467,10 @@ def explore(ctx, scale=1):
     if batches:
         _p, c, sched, out = batches[len(batches) // 3]
         ctx.sample({"schedule": [[s[0], s[1], s[3], s[4].hex()] for s in sched][:8], "impl": out[:3]})
+
+
+def explore(ctx, scale=1):
+    reasm_corr(ctx, scale)
     e2e(ctx, Tool(), ctx.n(4, 40) * scale, ctx.n(7, 24))
 
 
